@@ -12,8 +12,8 @@ package main
 // Data-race freedom of fields that no lock guards is the part of C19 that no theorem decides
 // (DESIGN.md section 11); the race detector has no false positives, but finding a race is luck.
 //
-//	vh oracle c19race -seed S -out result.json -replaydir DIR [-hist N] [-teardown N] [-snaprace N]
-//	vh oracle c19race -replay FILE       (re-runs the snapshot-race scenario under the race build)
+//	vh oracle c19race -seed S -out result.json -replaydir DIR [-hist N] [-teardown N] [-snaprace N] [-updrace N]
+//	vh oracle c19race -replay FILE       (re-runs the snapshot-race and the updates-vs-login scenario under the race build)
 
 import (
 	"encoding/json"
@@ -81,6 +81,7 @@ func runOracleRace(args []string) int {
 	hist := fs.Int("hist", 3000, "queue histories")
 	td := fs.Int("teardown", 30, "teardown scenarios")
 	snap := fs.Int("snaprace", 6, "rounds of the snapshot-race scenario")
+	upd := fs.Int("updrace", 30, "sessions of the updates-vs-login/logout scenario")
 	skip := fs.Bool("skip", false, "do nothing (quick tier)")
 	_ = fs.Parse(args)
 	res := &oracleResult{Stats: map[string]int{}, Samples: []map[string]any{}, Violations: []oracleViolation{}}
@@ -94,11 +95,13 @@ func runOracleRace(args []string) int {
 		return 0
 	}
 	if *replay != "" {
-		*hist, *td, *snap = 0, 0, 15
+		*hist, *td, *snap, *upd = 0, 0, 15, 40
 		if data, err := os.ReadFile(*replay); err == nil {
 			for _, w := range strings.Fields(string(data)) {
 				if k, v, ok := strings.Cut(w, "="); ok && k == "rounds" {
 					fmt.Sscan(v, snap)
+				} else if ok && k == "updrace" {
+					fmt.Sscan(v, upd)
 				}
 			}
 		}
@@ -128,7 +131,10 @@ func runOracleRace(args []string) int {
 	runs := [][]string{
 		{"oracle", "c19queue", "-seed", fmt.Sprint(*seed), "-n", fmt.Sprint(*hist), "-replaydir", tmp, "-out", filepath.Join(tmp, "q.json"),
 			"-driver", filepath.Join(root, "lean", ".lake", "build", "bin", "gluon_model_driver")},
-		{"oracle", "c19teardown", "-seed", fmt.Sprint(*seed), "-n", fmt.Sprint(*td), "-snaprace", fmt.Sprint(*snap), "-nohang", "-replaydir", tmp, "-out", filepath.Join(tmp, "t.json")},
+		{"oracle", "c19teardown", "-seed", fmt.Sprint(*seed), "-n", fmt.Sprint(*td), "-snaprace", fmt.Sprint(*snap), "-updrace", fmt.Sprint(*upd), "-nohang", "-replaydir", tmp, "-out", filepath.Join(tmp, "t.json")},
+	}
+	if *td == 0 {
+		runs[1] = append(runs[1], "-nodirected") // replay: only the two race scenarios
 	}
 	all := map[string]int{}
 	is13b := map[string]bool{}
@@ -170,7 +176,7 @@ func runOracleRace(args []string) int {
 		if !strings.Contains(k, "/") && !strings.Contains(k, ".") {
 			continue // no gluon frame on either side: a race inside the harness itself, listed only
 		}
-		text := fmt.Sprintf("oracle c19race\n# go build -race; scenario: sessions A and B select the same mailbox, the connector deletes messages, B logs out while A issues NOOP/FETCH/CHECK\n# race detector report (first of %d):\n#%s\n# replay: ./check C19 --tier thorough --replay <this file>\nsnaprace rounds=%d\n", all[k], strings.ReplaceAll(strings.TrimRight(first[k], "\n"), "\n", "\n#"), *snap)
+		text := fmt.Sprintf("oracle c19race\n# go build -race; scenarios: `snaprace` (sessions A and B select the same mailbox, the connector deletes messages, B logs out while A issues NOOP/FETCH/CHECK), `updrace` (connector updates are applied while sessions of the user log in, NOOP, log out / drop) and the teardown scenarios of c19teardown\n# race detector report (first of %d):\n#%s\n# replay: ./check C19 --tier thorough --replay <this file>\nsnaprace rounds=%d updrace=%d\n", all[k], strings.ReplaceAll(strings.TrimRight(first[k], "\n"), "\n", "\n#"), *snap, *upd)
 		if is13b[k] {
 			if reported13b {
 				continue
